@@ -201,6 +201,8 @@ def check_balance(case, ctx: Ctx):
     check(w.shape == (n,), f"weights shape {w.shape}")
     fin = np.isfinite(w)
     var = np.asarray(stats["var"], dtype=float)
+    # the weights are multiplicative (that is how the property - and every reader of the stored column - applies them)
+    check(stats.get("divisive_weights") is False, f"stats['divisive_weights'] = {stats.get('divisive_weights')!r} for multiplicative weights")
     with np.errstate(invalid="ignore"):
         check(np.array_equal(np.asarray(stats["converged"]), var < o["tol"]), f"stats['converged'] = {stats['converged']} but var = {stats['var']}, tol = {o['tol']}")
     dw, cw = known_modes(case)
